@@ -17,7 +17,7 @@ def cbytes(b: bytes) -> str:
 
 ID = "C36"
 QUICK_N = 3000
-THOROUGH_N = 20000
+THOROUGH_N = 12000
 SHARD = 150
 RULE = ("first, exhaustively: every flow type x every value of every typed connection field (tls_version, transport_protocol, state, proxy_mode; client and server) drawn from hard-coded independent domains (what OpenSSL/aioquic/the proxy core report), and the Literal check on each such value plus junk spellings; then random kinds: dumps(value tree) 14%, load(bytes) 24%, pop(bytes) 20%, FlowReader.stream over small records with a "
         "stubbed from_state raising every exception class 24%, nesting around the interpreter recursion budget 2%, "
